@@ -23,3 +23,47 @@ Theorem C01_clear_is_off_all_edges :
   (forall e, In e (flat_map ring_edges A ++ flat_map ring_edges B ++ flat_map ring_edges (rings_of R)) ->
              on_edge e p = false).
 Proof. exact clear01_iff. Qed.
+
+(** ** per-run certificate: a run whose (decidable) certificate holds returned exactly the
+    named region, for every point — instance-generic (used at the exact instance and at
+    the two floating-point instances) *)
+From GB Require Import Num Event Outcome FillQueue BoolOp Cert FieldsProofs.
+
+Theorem C01_partial_certified_run :
+  forall (N : Num) (conv : pt N -> option qpt) cfg fuel (A B : list (FillQueue.polygon N)) o,
+  cert01_run N conv cfg fuel A B o = true -> C01_at N conv cfg fuel A B o.
+Proof. exact C01_partial. Qed.
+
+(** ** the local rules the sweep rests on, for every numeric instance *)
+Theorem C01_tables_correct :
+  forall (N : Num) (cfg : config) (e : event N) (o : operation),
+  c_f1 cfg = true -> table cfg e o = expected e o.
+Proof. exact tables_correct. Qed.
+
+Theorem C01_propagation_correct :
+  forall (N : Num) (cfg : config) (st : store N) (ev prev : eid) (o : operation),
+  c_f2 cfg = true -> ev <> prev ->
+  flags_after cfg st ev (Some prev) o =
+  expected_in_out (Bool.eqb (e_is_subject (getE st ev)) (e_is_subject (getE st prev)))
+                  (Cmp.is_vertical st prev) (getE st prev).
+Proof. exact propagation_correct. Qed.
+
+Theorem C01_propagation_first :
+  forall (N : Num) (cfg : config) (st : store N) (ev : eid) (o : operation),
+  flags_after cfg st ev None o = (false, true).
+Proof. exact propagation_first. Qed.
+
+(** the pinned code violates both rules (defects F1 and F2, repaired in /repo) *)
+Theorem C01_pinned_tables_refuted :
+  forall N : Num, exists (e : event N) (o : operation), table pinned e o <> expected e o.
+Proof. exact tables_pinned_wrong. Qed.
+
+Theorem C01_F2_witness_refuted :
+  cert01_run NumQ.NQ conv_Q pinned 1000 F2_A F2_B Intersection = false
+  /\ (exists R, boolean_operation pinned 1000 F2_A F2_B Intersection = Ok R /\ length R = 1%nat).
+Proof. exact F2_refuted. Qed.
+
+Theorem C01_F2_witness_repaired :
+  cert01_run NumQ.NQ conv_Q release 1000 F2_A F2_B Intersection = true
+  /\ boolean_operation release 1000 F2_A F2_B Intersection = Ok nil.
+Proof. exact F2_repaired. Qed.
